@@ -99,4 +99,5 @@ def positive_controls(pid, tier, here):
     return {"fired": [], "errors": []}
 
 NOT_APPLICABLE = {}
-SOURCE_COMMITS = []
+SOURCE_COMMITS = []   # hook commits only (none: nothing in /repo is instrumented)
+FIX_COMMITS = ["f7f8347 fix: sort_once reported acyclic graphs as CircularDependence (C12)"]
